@@ -23,15 +23,53 @@ TEAKRA_SRCS = ["ahbm.cpp", "apbp.cpp", "btdmp.cpp", "dma.cpp", "timer.cpp", "mem
 
 COMMON = ["-std=c++17", "-O1", "-fno-omit-frame-pointer", "-D" + GUARD, "-pthread", "-w"]
 
-TSAN_WRAPS = ["pthread_mutex_lock", "pthread_mutex_unlock", "pthread_mutex_trylock",
-              "__tsan_atomic8_exchange", "__tsan_atomic8_load", "__tsan_atomic8_store",
-              "__tsan_atomic32_load", "__tsan_atomic32_store", "__tsan_atomic32_exchange",
-              "__tsan_atomic8_compare_exchange_strong", "__tsan_atomic8_compare_exchange_weak",
-              "__tsan_atomic32_compare_exchange_strong", "__tsan_atomic32_compare_exchange_weak",
-              "__tsan_atomic8_fetch_or", "__tsan_atomic8_fetch_and",
-              "__tsan_atomic32_fetch_add", "__tsan_atomic32_fetch_sub",
-              "__tsan_atomic64_load", "__tsan_atomic64_store", "__tsan_atomic64_exchange",
-              "__tsan_atomic64_fetch_add"]
+TSAN_WRAPS = ['pthread_mutex_lock',
+              'pthread_mutex_unlock',
+              'pthread_mutex_trylock',
+              '__tsan_atomic8_load',
+              '__tsan_atomic8_store',
+              '__tsan_atomic8_exchange',
+              '__tsan_atomic8_fetch_add',
+              '__tsan_atomic8_fetch_sub',
+              '__tsan_atomic8_fetch_and',
+              '__tsan_atomic8_fetch_or',
+              '__tsan_atomic8_fetch_xor',
+              '__tsan_atomic8_fetch_nand',
+              '__tsan_atomic8_compare_exchange_strong',
+              '__tsan_atomic8_compare_exchange_weak',
+              '__tsan_atomic16_load',
+              '__tsan_atomic16_store',
+              '__tsan_atomic16_exchange',
+              '__tsan_atomic16_fetch_add',
+              '__tsan_atomic16_fetch_sub',
+              '__tsan_atomic16_fetch_and',
+              '__tsan_atomic16_fetch_or',
+              '__tsan_atomic16_fetch_xor',
+              '__tsan_atomic16_fetch_nand',
+              '__tsan_atomic16_compare_exchange_strong',
+              '__tsan_atomic16_compare_exchange_weak',
+              '__tsan_atomic32_load',
+              '__tsan_atomic32_store',
+              '__tsan_atomic32_exchange',
+              '__tsan_atomic32_fetch_add',
+              '__tsan_atomic32_fetch_sub',
+              '__tsan_atomic32_fetch_and',
+              '__tsan_atomic32_fetch_or',
+              '__tsan_atomic32_fetch_xor',
+              '__tsan_atomic32_fetch_nand',
+              '__tsan_atomic32_compare_exchange_strong',
+              '__tsan_atomic32_compare_exchange_weak',
+              '__tsan_atomic64_load',
+              '__tsan_atomic64_store',
+              '__tsan_atomic64_exchange',
+              '__tsan_atomic64_fetch_add',
+              '__tsan_atomic64_fetch_sub',
+              '__tsan_atomic64_fetch_and',
+              '__tsan_atomic64_fetch_or',
+              '__tsan_atomic64_fetch_xor',
+              '__tsan_atomic64_fetch_nand',
+              '__tsan_atomic64_compare_exchange_strong',
+              '__tsan_atomic64_compare_exchange_weak']
 
 FLAVOURS = {
     "asan": dict(cxx="clang++",
